@@ -697,6 +697,9 @@ def run(rep, tier):
     rep.floor("bracket parsers", c18_audit.bracket_tail_rule(rep, usa), 2)
     c18_audit.whole_first_rule(rep, usa)
     rep.floor("address text copies", c18_audit.nul_rule(rep, usa), 1)
+    rep.floor("port suffix capacity tests", c18_audit.port_capacity_rule(rep, usa), 1)
+    rep.floor("network family switches", c18_audit.network_family_rule(rep, unu), 1)
+    rep.floor("inet_ntop capacity arguments", c18_audit.socklen_rule(rep, usa), 1)
     nwf = nacc = 0
     for lab, u in us.items():
         fns_ = [f for f in u.function_list if f.relfile() == lab]
